@@ -254,6 +254,59 @@ func c12Decision(c *Ctx, p *Prog, m *Model) {
 	for _, s := range m.Sites[term] {
 		printSites[s] = true
 	}
+	// the flags that allow or forbid the termination are read when the termination is due, i.e. after the record was
+	// written: inside the terminating function no read of the interrupt flags precedes the emission call
+	{
+		var early []string
+		nReads := 0
+		after := func(in ssa.Instruction) bool {
+			for ps := range printSites {
+				pb := ps.Block()
+				if pb == in.Block() {
+					for _, x := range pb.Instrs {
+						if x == ps {
+							return true
+						}
+						if x == in {
+							break
+						}
+					}
+					continue
+				}
+				if pb.Dominates(in.Block()) {
+					return true
+				}
+			}
+			return false
+		}
+		for _, b := range term.Blocks {
+			for _, in := range b.Instrs {
+				name := ""
+				switch x := in.(type) {
+				case *ssa.Call:
+					if cal := calleeOf(x); cal != nil && len(x.Common().Args) == 1 && (nm(cal) == "IsAnyBitsSet" || nm(cal) == "IsAllBitsSet") {
+						name = flagName(x.Common().Args[0])
+					}
+				case *ssa.BinOp:
+					if x.Op == token.AND {
+						if g, ok := globalLoad(x.X); ok && nm(g) == "flags" {
+							name = flagName(x.Y)
+						}
+					}
+				}
+				if !strings.Contains(name, "nterrupt") {
+					continue
+				}
+				nReads++
+				if len(printSites) > 0 && !after(in) {
+					early = append(early, name+" at "+p.Pos(instrPos(in)))
+				}
+			}
+		}
+		if nReads > 0 && len(printSites) > 0 {
+			r.Check(len(early) == 0, "R12.2", "flags-read-after-record:"+shortName(term), p.FuncPos(term), "the interrupt flags are read after the record is written", "the interrupt flags are read before the record is written ("+strings.Join(early, "; ")+"): a no-interrupt flag set while the record is being collected or written (another goroutine, a destination, a LogValuer) is not honoured and the call still panics or exits")
+		}
+	}
 	nOK, nBad := 0, 0
 	asg := assignments(atoms, consistent)
 	seenSpecRows := map[string]bool{}
